@@ -37,7 +37,7 @@ def run(c):
         cases = vlib.read_replay(c.replay)
     else:
         cases = gen.corpus()
-        n = 1200 if c.tier == "quick" else 12000
+        n = 3000 if c.tier == "quick" else 30000
         for i in range(n):
             cases.append(("g%d" % i, gen.gen_case(c.rng, c.rng.choice([10, 25, 50, 90]))))
         if c.tier == "thorough":
